@@ -1,16 +1,22 @@
 #!/bin/sh
-# usage: tools/with_mutant.sh <patch-file|-e 'sed-expr' file> -- <command...>
-# Makes a scratch copy of /repo (outside /repo and /verif), applies the change, runs the command with
-# VERIF_REPO pointing at it, removes the copy.
+# usage: tools/with_mutant.sh <patch-file> [<patch-file> ...] -- <command...>
+#        tools/with_mutant.sh -e '<sed-expr>' <file-relative-to-repo> -- <command...>
+# Makes a scratch copy of /repo (outside /repo and /verif), applies the change(s), runs the command with
+# VERIF_REPO pointing at the copy, removes the copy.
 set -e
 d=$(mktemp -d /tmp/mutrepo.XXXXXX)
 trap 'rm -rf "$d"' EXIT
 rsync -a --exclude .git /repo/ "$d"/
 if [ "$1" = "-e" ]; then
-  sed -i "$2" "$d/$3"; shift 3
-  ( cd /repo && diff -u "$OLDPWD/dev/null" /dev/null >/dev/null 2>&1 || true )
+  cp "$d/$3" "$d/$3.orig"
+  sed -i "$2" "$d/$3"
+  if cmp -s "$d/$3" "$d/$3.orig"; then echo "with_mutant: sed expression changed nothing" >&2; exit 3; fi
+  rm -f "$d/$3.orig"
+  shift 3
 else
-  ( cd "$d" && patch -p1 -s < "$1" ); shift 1
+  while [ "$1" != "--" ]; do
+    p=$(realpath "$1"); ( cd "$d" && patch -p1 -s --no-backup-if-mismatch < "$p" ); shift
+  done
 fi
 [ "$1" = "--" ] && shift
 VERIF_REPO="$d" "$@"
